@@ -315,6 +315,9 @@ class OptiWrapper(Opti):
                     mc = opti_advanced.canon_expr(c) # canon_expr should have a static counterpart
                     if mc.type in [casadi.OPTI_INEQUALITY, casadi.OPTI_GENERIC_INEQUALITY, casadi.OPTI_DOUBLE_INEQUALITY]:
                         print(mc.lb,mc.canon,mc.ub)
+                        if not DM(scale).is_scalar() and mc.canon.numel()==2*DM(scale).numel():
+                            # lb <= (expr <= ub) with non-constant bounds is canonicalised as [lb-expr; expr-ub] <= 0
+                            scale = vertcat(scale, scale)
                         lb = mc.lb/scale
                         canon = mc.canon/scale
                         ub = mc.ub/scale
